@@ -45,10 +45,10 @@ def run(R):
     nterms = 3 if quick else int(__import__("os").environ.get("C06_TERMS", "60"))
     for ti in range(nterms):
         a, b = g.term_pair()
-        st_s, st_r = r.choice(gen.VISIBLE), r.choice(gen.VISIBLE)
+        st_s, st_r = gen.VISIBLE[(ti * 5 + R.seed) % len(gen.VISIBLE)], r.choice(gen.VISIBLE)
         search, replace = gen.render(a, st_s), gen.render(b, st_r)
         families = [("default", [])]
-        k = r.randint(1, 4)
+        k = r.randint(2, 4)
         families.append(("only", r.sample(gen.STYLES14, k)))
         families.append(("exclude", r.sample(gen.DEFAULT_STYLES, r.randint(1, 5))))
         families.append(("include", r.sample(["Dot", "LowerFlat", "UpperFlat"], r.randint(1, 3))))
@@ -56,7 +56,12 @@ def run(R):
             families = [families[0], families[1 + ti % 3]]
         if ti % 3 == 0:
             families.append(("exclude", list(gen.DEFAULT_STYLES)))      # every style disabled: nothing may change
-        for kind, chosen in families:
+        # exactly one enabled style, with the term typed in each kind of style (separator, hump, space)
+        single = r.choice(gen.VISIBLE)
+        runs = [(kind, chosen, search) for kind, chosen in families]
+        for typed in (["Snake", "Camel", "Title"] if quick else ["Snake", "Kebab", "Camel", "Pascal", "Title", "Sentence", "LowerSentence", "Dot"]):
+            runs.append(("only", [single if typed != "Snake" else r.choice(gen.VISIBLE)], gen.render(a, typed)))
+        for kind, chosen, search in runs:
             eff = effective(kind, chosen)
             opts = []
             if kind != "default":
